@@ -426,8 +426,11 @@ def assemble(unit, vacuity=False, outdir=None):
             if ch[0] == "text":
                 label, props = None, None
                 for line in ch[1]:
+                    if "/*VACPROBE*/" in line:
+                        line = line.replace("/*VACPROBE*/", "proof { assert(false); } // VACUITY-PROBE" if vacuity else "")
                     t = parse_tag(line)
                     if t is not None: label, props = t
+                    elif line.strip() == "" or line.startswith("}"): label, props = None, None   # a literal tag's scope ends with its item
                     segs.append(Seg(line + "\n", "literal", label, props)); item_of_seg.append(None)
             elif ch[0] == "include":
                 ip = os.path.join(VERIF, ch[1])
